@@ -260,7 +260,9 @@ def discharge(run, ob, timeout=10, want_all=False):
             d['result'] = r
     res['bytes'] = len(text)
     res['hash'] = hashlib.sha256(text.encode()).hexdigest()
-    if res['result'] in ('sat', 'unsat'):
+    # only definitive answers are remembered: `unsat`, or `sat` of a quantifier-free query.  A `sat` of the instantiated
+    # form is a candidate (the quantified form may still be refuted by another solver on another, less loaded, run)
+    if res['result'] == 'unsat' or (res['result'] == 'sat' and res.get('form') == 'ground'):
         _cache_put(key, res)
         if qkey is not None and res['result'] == 'unsat':
             _cache_put(qkey, res)
